@@ -18,4 +18,6 @@ def write_if_changed(path, text):
 def generate_all():
     """returns {'obligations': {pid: n}}"""
     info = {"obligations": {}}
+    import gen_typestr
+    info["obligations"]["C11"] = gen_typestr.generate()
     return info
